@@ -23,15 +23,17 @@ TECHNIQUE = ('stateful runtime monitor over the save/load pair (model of the las
              'post-conditions on all four loaders, nested calls included) with a decimal-rounding reference oracle; '
              'workload = one-shot round trips, same-path and interleaved save/load histories, sweep of 4-decimal dt')
 RULE = ('case = one block of save_/load_ calls of the real functions on 1-3 temporary paths. one-shot: a record '
-        '(1..2000 samples; classes noise/walk/quake/..., |v| 4e-7..1e20 (some to 1e300), half-way points of the 6th decimal incl. exact '
-        'dyadic ties, integers, float32, list/tuple) saved with save_signal (Signal/AccSignal) or save_values_and_dt to a '
-        'fresh path and read by every loader entry point (load_values_and_dt, load_signal default/sig/signal/acc_sig, '
-        'load_sig m, load_asig load_label x m). history: 3..6 rounds of save(different record, dt, label, saver) -> loads '
-        'on the SAME path (incl. same-size overwrites and re-saving the loaded object); interleaved: the same on 2-3 paths. dt: design list, k/10000 over six decades, dt>=1 with 5-6 '
+        '(1..2000 samples; classes noise/walk/quake/..., |v| 4e-7..1e20 (some to 1e300), half-way points of the 6th '
+        'decimal incl. exact dyadic ties, integers, float32, list/tuple) saved with save_signal (Signal/AccSignal) or '
+        'save_values_and_dt to a fresh path and read by every loader entry point (load_values_and_dt, load_signal '
+        'default/sig/signal/acc_sig, load_sig m, load_asig load_label x m). history: 3..6 rounds of save(different '
+        'record, length, dt, label, saver) -> loads on the SAME path, incl. same-size overwrites and re-saving the '
+        'loaded object; interleaved: the same on 2-3 paths. dt: design list, k/10000 over six decades, dt>=1 with 5-6 '
         'significant digits, log-uniform raw in [1e-4,100], half-way points of the 4th decimal, int/float32/float64. '
         'labels: default, spaces, digits, header look-alikes, empty, comma, #, random printable ASCII. m in '
         '{1,2,0.5,-1,9.81,random}. sweep: save/load of every dt=k/10000 in the enumerated range. distinct = digest of '
-        '(all saved records, dt, labels, call list); non-trivial = some saved record has a value that does not round to 0.')
+        '(all saved records, dt, labels, call list); non-trivial = some saved record has a value that does not round '
+        'to 0.')
 ASSUMPTIONS = ['the format holds values to 6 and dt to 4 decimals: "same to nd decimals" = the multiple of 10**-nd nearest '
                'to the saved number; within 4 ulps of a half-way point (exact ties included) either neighbour is accepted',
                'finite real values, length >= 1, dt in [1e-4, 100], single-line str label (others counted, not judged)',
@@ -152,7 +154,8 @@ def _witness(key, **extra):
     except OSError:
         raw = None
     w = {'ops': [dict(o) for o in LOG], 'log_truncated': LOG_STATE['truncated'], 'pid': PIDS.get(key),
-         'prelude_ops': [dict(o) for o in PRELUDE] if LOG_STATE['cases_done'] else [], 'file_bytes': raw, 'file_text_head': (raw or b'')[:400].decode('utf-8', 'replace')}
+         'prelude_ops': [dict(o) for o in PRELUDE] if LOG_STATE['cases_done'] else [], 'file_bytes': raw,
+         'file_text_head': (raw or b'')[:400].decode('utf-8', 'replace')}
     w.update(extra)
     return w
 
